@@ -150,6 +150,18 @@ pub fn body(inst: &str) {
             must_off_singularities("acot", || { assume(nonzero(cone - i_unit * inv)); assume(nonzero(cone + i_unit * inv)); (zc.acot(), atan_ref(inv)) }, |(l, r)| ceq("acot z = atan(1/z)", l, r));
             must_off_singularities("acoth", || { assume(nonzero(inv + one())); assume(nonzero(cone - inv)); (zc.acoth(), atanh_ref(inv)) }, |(l, r)| ceq("acoth z = atanh(1/z)", l, r));
         }
+        "inv_right_lemmas" => {
+            // Lemmas behind the right-inverse identities, on an arbitrary nonzero u, for the REAL bodies of ln, sinh, cosh,
+            // sin, cos (libm axioms):  with L = ln u,  2u sinh L = u^2 - 1,  2u cosh L = u^2 + 1,
+            // 2i u sin(-i L) = u^2 - 1,  2i u cos(i L + pi/2) = u^2 - 1.
+            let i_unit = Cmplx::new(z(), one());
+            let two = Sym::lit(2.0);
+            let u = cvar("u");
+            must("sinh(ln u)", || { assume(nonzero(u)); u.ln().sinh() }, |f| ceq("2 u sinh(ln u) = u^2 - 1", f * u * two, u * u - one()));
+            must("cosh(ln u)", || { assume(nonzero(u)); u.ln().cosh() }, |f| ceq("2 u cosh(ln u) = u^2 + 1", f * u * two, u * u + one()));
+            must("sin(-i ln u)", || { assume(nonzero(u)); (-(i_unit * u.ln())).sin() }, |f| ceq("2i u sin(-i ln u) = u^2 - 1", i_unit * (f * u * two), u * u - one()));
+            must("cos(i ln u + pi/2)", || { assume(nonzero(u)); (i_unit * u.ln() + PI_2).cos() }, |f| ceq("2i u cos(i ln u + pi/2) = u^2 - 1", i_unit * (f * u * two), u * u - one()));
+        }
         "inv_acosh" => {
             must("acosh", || { let a = zc.acosh(); a }, |a| { prove("Re acosh z >= 0 (principal branch)", le(z(), a.real)); prove("Im acosh z in (-pi, pi]", B::and(vec![lt(-PI, a.imag), le(a.imag, PI)])); });
         }
